@@ -55,7 +55,9 @@ def gen(seed: int, tier: str) -> dict[str, Any]:
                        # several handshakes on one SecureTunnel / SecureSession object (what a reconnect does)
                        "reuse": rng.random() < 0.5, "reconnects": rng.choice([0, 1, 2, 3]),
                        # installations where the user password and the device authentication password are the same string
-                       "same_pw": rng.random() < 0.15},
+                       "same_pw": rng.random() < 0.15,
+                       # the gateway hands out the lowest free session id: a session closed before gives its id to the next
+                       "lowest_free_sid": rng.random() < 0.5},
             "ops": []}
     if plan["config"]["same_pw"]:
         plan["config"]["dev_pw"] = plan["config"]["user_pw"]
@@ -85,6 +87,7 @@ def run_session(plan):
     loop, net = R.loop, R.net
     rng = random.Random(plan["seed"] ^ 0xC28)
     gw = SecureGateway(net, rng, user_id=cfg["user_id"], user_password=cfg["user_pw"], device_password=cfg["dev_pw"])
+    gw.lowest_free_sid = bool(cfg.get("lowest_free_sid"))
     delivered: list[int] = []
     info: dict[str, Any] = {}
 
